@@ -29,6 +29,8 @@ type Gen struct {
 	NoFindingShapes bool // avoid the input classes of the known findings
 	ForCCF          bool // only shapes CCF can encode
 	inTypeValue     bool // generating the static type of a type value
+	usedQIDs        []string
+	usedIDs         map[string]bool
 }
 
 func NewGen(r *lib.Rng) *Gen { return &Gen{r: r, NoFindingShapes: true} }
@@ -83,6 +85,11 @@ func (g *Gen) qualified(i int) (common.Location, string) {
 	if g.r.Chance(1, 3) {
 		qid = lib.Pick(g.r, typeNames) + "." + name
 	}
+	// same qualified identifier as an earlier type of the universe, at another location (address,
+	// location kind): distinct types that differ only in where they are declared
+	if len(g.usedQIDs) > 0 && g.r.Chance(2, 5) {
+		qid = lib.Pick(g.r, g.usedQIDs)
+	}
 	if al, ok := loc.(common.AddressLocation); ok {
 		// the name of an address location is the first component of the qualified identifier
 		first := qid
@@ -95,6 +102,13 @@ func (g *Gen) qualified(i int) (common.Location, string) {
 		al.Name = first
 		loc = al
 	}
+	// the type ID (location + qualified identifier) must be new
+	id := string(common.NewTypeIDFromQualifiedName(nil, loc, qid))
+	if g.usedIDs[id] {
+		return g.qualified(i)
+	}
+	g.usedIDs[id] = true
+	g.usedQIDs = append(g.usedQIDs, qid)
 	return loc, qid
 }
 
@@ -116,6 +130,7 @@ type shell struct {
 // NewUniverse creates 1-5 nominal types (some mutually / self recursive) and 0-3 entitlements.
 func (g *Gen) NewUniverse() {
 	g.structs, g.interfaces, g.ents = nil, nil, nil
+	g.usedQIDs, g.usedIDs = nil, map[string]bool{}
 	for i := 0; i < g.r.Intn(4); i++ {
 		g.ents = append(g.ents, common.TypeID(fmt.Sprintf("S.test.%s", lib.Pick(g.r, []string{"E", "F", "Mutate", "Withdraw", "X1", "Ent"})+fmt.Sprint(i))))
 	}
@@ -124,6 +139,9 @@ func (g *Gen) NewUniverse() {
 	for i := 0; i < n; i++ {
 		loc, qid := g.qualified(i)
 		nf := g.r.Intn(5)
+		if nf < 2 && g.r.Bool() {
+			nf = 2 + g.r.Intn(3)
+		}
 		if g.r.Chance(1, 10) {
 			nf = 6 + g.r.Intn(6)
 		}
@@ -920,6 +938,10 @@ func (g *Gen) Value() cadence.Value {
 		}
 	case 1:
 		t = cadence.MetaType
+	case 2, 3:
+		if v := g.manyComposites(); v != nil {
+			return v
+		}
 	}
 	if t == nil {
 		t = g.FieldType(3, nil)
@@ -929,4 +951,60 @@ func (g *Gen) Value() cadence.Value {
 		return cadence.NewOptional(nil)
 	}
 	return v
+}
+
+
+// manyComposites: one value that contains values (and type values) of every instantiable nominal type
+// of the universe, so that all their type definitions and field orders meet in one encoding: as the
+// elements of an [AnyStruct] / [AnyResource] array, or as the fields of a wrapper struct, or as the
+// values of a dictionary.
+func (g *Gen) manyComposites() cadence.Value {
+	var structs, resources []cadence.Value
+	for _, t := range g.structs {
+		if !g.instantiable(t, nil) {
+			continue
+		}
+		n := 1 + g.r.Intn(2)
+		for i := 0; i < n; i++ {
+			v := g.ValueOf(t, 2)
+			if _, ok := t.(*cadence.ResourceType); ok {
+				resources = append(resources, v)
+			} else {
+				structs = append(structs, v)
+			}
+		}
+	}
+	vals := structs
+	elem := cadence.Type(cadence.AnyStructType)
+	if len(resources) > len(structs) {
+		vals, elem = resources, cadence.AnyResourceType
+	}
+	if len(vals) < 2 {
+		return nil
+	}
+	for i := len(vals) - 1; i > 0; i-- {
+		j := g.r.Intn(i + 1)
+		vals[i], vals[j] = vals[j], vals[i]
+	}
+	switch g.r.Intn(4) {
+	case 0: // wrapper struct with one field per value, declared with the concrete types
+		fs := make([]cadence.Field, len(vals))
+		for i, v := range vals {
+			fs[i] = cadence.Field{Identifier: fmt.Sprintf("%s%d", g.ident(), i), Type: v.Type()}
+		}
+		return cadence.NewStruct(vals).WithType(cadence.NewStructType(common.StringLocation("test"), "Wrapper", fs, nil))
+	case 1: // dictionary values (the pairs of a dictionary with more than one entry go through a sub-encoder)
+		var ps []cadence.KeyValuePair
+		for i, v := range vals {
+			ps = append(ps, cadence.KeyValuePair{Key: cadence.String(fmt.Sprintf("k%d", i)), Value: v})
+		}
+		return cadence.NewDictionary(ps).WithType(cadence.NewDictionaryType(cadence.StringType, elem))
+	case 2: // the types as type values next to the values
+		if elem == cadence.AnyStructType {
+			for _, t := range g.structs {
+				vals = append(vals, cadence.NewTypeValue(t))
+			}
+		}
+	}
+	return cadence.NewArray(vals).WithType(cadence.NewVariableSizedArrayType(elem))
 }
